@@ -184,6 +184,33 @@ impl Property for C07 {
             judge("distance:Coord/Coord".to_string(), guard(std::panic::AssertUnwindSafe(|| Euclidean.distance(pa.0, pb.0))), obs);
             judge("distance:Point/Point(by value)".to_string(), guard(std::panic::AssertUnwindSafe(|| Euclidean.distance(*pa, *pb))), obs);
         }
+        // point sets at an extreme uniform scale (2^+-520 .. 2^+-999, exact in f64): the distance of two points is the
+        // hypotenuse of the coordinate differences, which is representable although its square is not
+        if let (Some(pa), Some(pb)) = (match &c.a { G::Point(p) => Some(vec![*p]), G::MultiPoint(v) => Some(v.clone()), _ => None }, match &c.b { G::Point(p) => Some(vec![*p]), G::MultiPoint(v) => Some(v.clone()), _ => None }) {
+            if !m.intersects() && c.xf.tx == 0 && c.xf.ty == 0 {
+                obs.label("points-at-extreme-scale");
+                let e = 520 + (c.vsel % 480) as i32;
+                for e in [e, -e] {
+                    let sc = 2f64.powi(e);
+                    let mk = |v: &Vec<crate::exact::C>, as_point: bool| -> geo::Geometry<f64> {
+                        let pts: Vec<geo::Point<f64>> = v.iter().map(|q| { let d = c.xf.d4(*q); geo::Point::new(d.0 as f64 * sc, d.1 as f64 * sc) }).collect();
+                        if as_point && pts.len() == 1 { geo::Geometry::Point(pts[0]) } else { geo::Geometry::MultiPoint(geo::MultiPoint::new(pts)) }
+                    };
+                    let (xa, xb) = (mk(&pa, matches!(c.a, G::Point(_))), mk(&pb, matches!(c.b, G::Point(_))));
+                    let (d2, _) = exact_dist2(&c.a, &c.b);
+                    let want_x = d2.to_f64().sqrt() * sc;
+                    for (name, r) in [("concrete", euclid(&xa, &xb)), ("transposed", euclid(&xb, &xa)), ("enum", guard(std::panic::AssertUnwindSafe(|| Euclidean.distance(&xa, &xb))))] {
+                        match r {
+                            Ok(d) => {
+                                obs.cmp();
+                                obs.expect((d - want_x).abs() <= 4.0 * f64::EPSILON * want_x, &format!("distance:{ta}/{tb}|extreme-scale|value"), || format!("{name}: got {d} want {want_x} at scale 2^{e}; {}", ctx()));
+                            }
+                            Err(p) => obs.fail(format!("distance:{ta}/{tb}|extreme-scale|panic|{}", p.site()), format!("{name}: {} {}", p, ctx())),
+                        }
+                    }
+                }
+            }
+        }
         if let (geo::Geometry::Point(pa), geo::Geometry::Line(lb)) = (&ga, &gb) {
             judge("distance:Coord/Line".to_string(), guard(std::panic::AssertUnwindSafe(|| Euclidean.distance(pa.0, lb))), obs);
             judge("distance:Line/Coord".to_string(), guard(std::panic::AssertUnwindSafe(|| Euclidean.distance(lb, pa.0))), obs);
